@@ -89,6 +89,18 @@ Theorem C16_wallclock_prefix_partial : forall a b s,
 Proof. exact wallclock_sync_prefix. Qed.
 Print Assumptions C16_wallclock_prefix_partial.
 
+(* the same budget for one sender under ANY staleness of lastWrite (tight loops, pieces of
+   one split Send): a step is (wait, chars, forgiven); the only link to the clock is that
+   the time forgiven so far never exceeds the time elapsed since the start (credit_ok —
+   every stretch is forgiven at most once, the invariant behind C16_hold).  After any
+   number of events the cost written fits in 8 s plus the time until the last Send returned. *)
+Theorem C16_wallclock_one_sender_partial : forall steps w t0,
+  0 <= w <= threshold -> Forall step1_ok steps -> credit_ok w t0 [] steps ->
+  w + sum_cost3 steps <= threshold + (end_one w t0 steps - t0) /\
+  Z.of_nat (length steps) * second <= threshold + (end_one w t0 steps - t0).
+Proof. exact wallclock_one. Qed.
+Print Assumptions C16_wallclock_one_sender_partial.
+
 (* every held event of that sender is stamped no earlier than its cost after its Send *)
 Theorem C16_hold_sync : forall a s gap chars slack,
   sync_state s -> Forall step_ok (a ++ [(gap, chars, slack)]) ->
